@@ -677,6 +677,8 @@ def run(chk, tier):
     chk.guard('C03.l', lambda: rule_alloc_chain(chk, prog, tier))
     chk.guard('C03.m', lambda: rule_mnemonics(chk, prog, tier))
     chk.guard('C03.n', lambda: rule_vla_typedef(chk, prog, tier))
+    from props import c01f
+    chk.guard('C01.f', lambda: c01f.rule_statements(chk, prog, tier))     # statements: every jump the statement lowering emits goes to a block it also places
     from props import c07
     chk.guard('C07.b', lambda: c07.rule_emitdata(chk, prog, tier))          # a data definition has exactly the size of the object: items and zero padding add up
     from props import c09
